@@ -115,7 +115,7 @@ def cases(tier, seed):
             yield {"gen": gen, "ops": ops}
         yield {"gen": gen, "ops": gen_script(random.Random(f"long{gen}{seed}"), long=True),
                "long": True}
-    n = 250 if tier == "quick" else 20000
+    n = 250 if tier == "quick" else 150000
     for i in range(n):
         yield {"gen": rnd.choice((4, 5)), "ops": gen_script(rnd)}
 
